@@ -123,6 +123,10 @@ func (ec *EvalCtx) describeTarget(tgt string) []tgtDesc {
 			}
 			return ec.leafDescs(p, p.Elem, false)
 		}
+		if e.Name == "$cap" {
+			ch := ec.evalTerm(e.Args[0])
+			return []tgtDesc{{key: st.chanKey("cap"), base: &ch}}
+		}
 		if e.Name == "$open" {
 			ch := ec.evalTerm(e.Args[0])
 			return []tgtDesc{{key: st.chanKey("open"), base: &ch}}
@@ -154,8 +158,15 @@ func (ec *EvalCtx) describeTarget(tgt string) []tgtDesc {
 			}
 			return ec.leafDescs(np, np.Elem, true)
 		}
-		x := ec.eval(e.Args[0])
-		p, ok := ec.ptrOf(x)
+		var x Val
+		var p PtrV
+		var ok bool
+		if ap, isAddr := ec.addrOf(e.Args[0]); isAddr {
+			x, p, ok = ap, ap, true
+		} else {
+			x = ec.eval(e.Args[0])
+			p, ok = ec.ptrOf(x)
+		}
 		if !ok {
 			fail("modifies target %q: not a pointer", tgt)
 		}
@@ -325,4 +336,44 @@ func (st *State) frameGoals(names map[string]Val, only map[string]bool) []frameG
 		out = append(out, frameGoal{label, "only the locations listed in modifies (and fresh objects) change in " + k, goal})
 	}
 	return out
+}
+
+// addrOf: the address denoted by a selector chain through value-embedded structs (x.a.b where a is a struct field by value).
+func (ec *EvalCtx) addrOf(e *CExpr) (PtrV, bool) {
+	if e.Kind != "sel" || strings.HasPrefix(e.Name, "$") {
+		return PtrV{}, false
+	}
+	var base PtrV
+	if bp, ok := ec.addrOf(e.Args[0]); ok {
+		base = bp
+	} else {
+		var v Val
+		func() {
+			defer func() {
+				if r := recover(); r != nil {
+					if _, ok := r.(unsupported); !ok {
+						panic(r)
+					}
+				}
+			}()
+			v = ec.eval(e.Args[0])
+		}()
+		if v == nil {
+			return PtrV{}, false
+		}
+		p, ok := ec.ptrOf(v)
+		if !ok {
+			return PtrV{}, false
+		}
+		base = p
+	}
+	np, ok := fieldPtr(base, e.Name)
+	if !ok {
+		return PtrV{}, false
+	}
+	if classify(np.Elem) != kStruct {
+		return PtrV{}, false
+	}
+	np.Typ = types.NewPointer(np.Elem)
+	return np, true
 }
